@@ -11,8 +11,12 @@ CLAIMS = {
     "C01": ("proof",
             "Coq: the read path is proved for every well-formed tree (lookups = association in the flattened sorted list, cursor = "
             "flatten: SearchFacts/CursorFacts/SeekFacts), the page codec round-trips (CodecFacts); the write path is proved at node level "
-            "(EngineFacts: leaf insert / delete = the reference map's insert / remove, merge and split keep every entry in order) but the "
-            "lift to whole transactions (descent + rebalance + spill + commit) is NOT proved: it is validated per commit on the real files by the extracted Gallina decoder "
+            "(EngineFacts: leaf insert / delete = the reference map's insert / remove, merge and split keep every entry in order), at tree "
+            "level (EngineModifyFacts: put / delete on any well-formed overlay tree), for the whole operation sequence of a transaction "
+            "before commit (EnginePathFacts: the overlay's meaning is sem_tx of the operations; SpecPathFacts: sem_tx = the handle-based "
+            "reference machine), for rebalance (EngineRebalanceFacts: views unchanged) and for spill of one tree (EngineSpillFacts / "
+            "EngineBridgeFacts: the pages written hold exactly the view, on free pages); the assembly through nested spill and commit "
+            "into one theorem over run_tx (DESIGN Appendix K) is NOT finished, so the lift to whole transactions is validated per commit on the real files by the extracted Gallina decoder "
             "(inv_check + contents = reference), every call is compared with the extracted reference map, the engine model must reproduce each "
             "committed file page for page, and the engine model alone is searched against the reference over exhaustive shape families "
             "with hits replayed on the library (C01_partial in DESIGN.md).",
